@@ -344,7 +344,10 @@ class PathBasedRoutingProblem(RoutingProblem):
             while new_node in self.node_names:
                 new_node += "_"
             # Add node - remember, node is defined by DEMAND = -LOADING
-            self.add_node(new_node, -new_node_loading)
+            # (it can be visited as soon as the depot opens, wherever time
+            # zero lies)
+            depot_opens = self.nodes[self.depot_index].get_window()[0]
+            self.add_node(new_node, -new_node_loading, (depot_opens, np.inf))
             new_node_index = self.node_names.index(new_node)
             # Add arcs and route through unvisited node
             # cost of route will be (at least?) twice high_cost
